@@ -230,8 +230,10 @@ def run(ctx, ops=None):
         samples=samples, distinct_nontrivial=distinct, assumptions=ASSUME, trusted_base=vlib.TRUSTED_BASE,
         extra={"ops_by_kind": kinds, "ops_by_variant": tags, "known_finding_inputs": ctx.cov.get("known_finding_inputs", {}),
                "exhaustive_domains": ["every sub-rectangle of every w x h image, w,h in 1..%d, for every file variant" % hi],
-               "open_statements": ["C13_crop for RLE BMP (false on the current tree: C13_bmp_rle_crop_witness)", "PNG/TIFF/JPEG: not covered",
-                                   "C13_convert for palette / RLE BMP (false on the current tree: C13_bmp_palette_convert_witness)"]},
+               "open_statements": ["C13_convert for palette / RLE BMP (false on the current tree: C13_bmp_palette_convert_witness)",
+                                   "C13_crop for RLE BMP with the reader before 76f86d6 (false: C13_bmp_rle_crop_witness; the fixed reader: C13_crop_bmp_rle_fixed)",
+                                   "PNG/TIFF/JPEG: judged only (external codec); Adam7 PNG violates the crop clause (known finding)",
+                                   "devices agree / read_view = read_image / any_image / frame condition: correspondence only"]},
         exhaustive=False)
 
 def replay(ctx, path):
